@@ -634,6 +634,8 @@ impl Campaign for C07 {
         }
         for extra in [
             "\"\u{65e5}\u{672c}\u{8a9e}\"", "(\"\u{65e5}\u{672c}\u{8a9e}\" <~ (1..2))", "(\"h\u{e9}llo\" <~ (1..3))", "(3..1)", "(1..3)", "(1.5 .. 3)", "(1 >..< 1)", ":ka.kb", "({ $ } ~ 1)", "(5 ~ 6)", "(,)", "((1 2) (3 4))", "(:ka = (,))",
+            // a symbol spelled with a further ':' at the end of its name (same symbol value, another recorded name)
+            ":ka:", "(:kb: = 5)", "(:ka:, 5)", ":ka.kb:",
             ":na\u{ef}ve", "(:na\u{ef}ve = 5)", ":ab.na\u{ef}ve", "(:\u{65e5}\u{672c} = (1 2))", "\"\u{e9}\"", "(1 <> (2 <> 3))", "2147483647", "(--2147483647 - 1)", "1.5", "()", "$?", "#1", "{ $ }", "(1 = 2)", "(:ka = :kb = 3)", "\"\"", "(\"ab\" <> \"cd\")", "((,) <> (,))",
         ] {
             values.push(extra.to_string());
